@@ -645,24 +645,25 @@ func genSyncBoundary(r *Rand) Input {
 	if k > P {
 		k = P
 	}
-	g.tag("start-" + []string{"", "1", "2", "3", "4", "5", "6", "7", "8"}[k] + "-before-boundary")
 	e0 := boundary - k
 	fork := uint64(0)
 	forkHandler := r.Chance(1, 4)
 	switch {
 	case forkHandler:
-		// the fork epoch lies inside the last 5 epochs of the period, after the start-up
-		if k == 1 {
-			k = 2
-			e0 = boundary - k
-		}
-		fork = boundary - uint64(r.Range(1, int(min(k-1, 5))))
+		// the fork epoch lies inside the last 5 epochs of the period (each distance equally often) and
+		// the process starts one or two epochs before it, so that only the fork-epoch handler (and, at
+		// distance 5, the ticker's own test in the same tick) can set the next period up
+		dist := uint64(r.Range(1, 5))
+		k = dist + uint64(r.Range(1, 2))
+		e0 = boundary - k
+		fork = boundary - dist
 		g.tag("fork-near-boundary")
 	case r.Chance(1, 3):
 		fork = uint64(r.Range(1, int(e0))) // some earlier epoch, aligned or not
 		g.tag("altair-fork-epoch-nonzero")
 	}
 	h.SpecAltair = &fork
+	g.tag("start-" + []string{"", "1", "2", "3", "4", "5", "6", "7", "8"}[k] + "-before-boundary")
 	syncEnv := func(ce, cur uint64) *Env {
 		e := g.env(ce, ce+1, cur, false)
 		e.Vals = true
